@@ -50,7 +50,8 @@ def history_case(draw):
         d = defs[draw(st.integers(0, len(defs) - 1))]
         val = gen_hed.def_value_for(draw, d, pl) if d["takes"] else None
         earlier = [x["value"] for x in gen_hed.flatten(tree) if x.get("kind") == "defocc" and x["name"] == d["name"]
-                   and x["value"] and x["value"].swapcase() != x["value"]]
+                   and x["value"] and x["value"].swapcase() != x["value"] and " " not in x["value"]
+                   and all(c.isalnum() or c in "-_." for c in x["value"])]   # not the case of a unit symbol
         if earlier and draw(st.booleans()):
             val = earlier[0].swapcase()      # same definition, value differing only in letter case
         o = occ(d, val, draw(st.sampled_from(["S", "S", "E", "B"])))
